@@ -45,14 +45,17 @@ def c03core (withStat : Bool) (args : List String) : String :=
       | some t, some pos, some mom, some [exp1], some dirs, some sel, some acc =>
         let run (pos mom : List Float) (eps : Float) :=
           transition (targetFn t) dot eps pos mom exp1 dirs sel acc 14
-        let kap : Float := if ty = "f32" then 5e-6 else 1e-13
+        let kap : Float := if ty = "f32" then 5e-6 else if tspec.head? == some "student" || tspec.head? == some "gauss2" then 1e-6 else 1e-13
         let runB (k : Float) := transition (targetFn t) (dotBiased k) eps pos mom exp1 dirs sel acc 14
         match run pos mom eps with
         | none => id ++ " INDET"
         | some st =>
           -- rounding accumulates along the trajectory: the probe perturbation grows with the number of leapfrog steps
           let scale : Float := max 1 (Float.ofNat (2 ^ st.j) / 100)
-          let e : Float := (if ty = "f32" then 1e-5 else 2e-7) * scale
+          -- targets whose implementation is only f32-accurate even on the f64 backend (built-in Gaussian: f32 parameters;
+          -- Student-t: burn's autodiff of div_scalar/log) get the f32-sized probes
+          let coarse := ty = "f32" || tspec.head? == some "student" || tspec.head? == some "gauss2"
+          let e : Float := (if coarse then 1e-5 else 2e-7) * scale
           let alt1 := run (pos.map (· * (1 + e))) (mom.map (· * (1 - e))) eps
           let alt2 := run (pos.zipIdx.map fun (x, i) => x * (1 + (if i % 2 == 0 then e else -e)) + e) (mom.zipIdx.map fun (x, i) => x * (1 + (if i % 2 == 1 then e else -e))) (eps * (1 + e))
           let tol : Float := if ty = "f32" then 3e-3 else 2e-5
@@ -91,13 +94,14 @@ def c03t (args : List String) : String :=
           let tg := targetFn t pos
           (buildTree (targetFn t) dot logu (decide (v < 0)) eps joint0 j ⟨pos, mom, tg.2, tg.1⟩ sel).1
         let r := run pos mom eps
-        let kap : Float := if ty = "f32" then 5e-6 else 1e-13
+        let kap : Float := if ty = "f32" then 5e-6 else if tspec.head? == some "student" || tspec.head? == some "gauss2" then 1e-6 else 1e-13
         let runB (k : Float) :=
           let tg := targetFn t pos
           (buildTree (targetFn t) (dotBiased k) logu (decide (v < 0)) eps joint0 j ⟨pos, mom, tg.2, tg.1⟩ sel).1
         let key (r : Tree Float (List Float)) := toString r.n ++ " " ++ (if r.s then "T" else "F") ++ " " ++ toString r.nalpha
         let scale : Float := max 1 (Float.ofNat (2 ^ j) / 100)
-        let e : Float := (if ty = "f32" then 1e-5 else 2e-7) * scale
+        let coarse := ty = "f32" || tspec.head? == some "student" || tspec.head? == some "gauss2"
+        let e : Float := (if coarse then 1e-5 else 2e-7) * scale
         let a := run (pos.map (· * (1 + e))) (mom.map (· * (1 - e))) eps
         let b := run (pos.zipIdx.map fun (x, i) => x * (1 + (if i % 2 == 0 then e else -e)) + e) (mom.zipIdx.map fun (x, i) => x * (1 + (if i % 2 == 1 then e else -e))) (eps * (1 + e))
         let tol : Float := if ty = "f32" then 3e-3 else 2e-5
